@@ -340,7 +340,12 @@ impl Sut {
                 let cb = self.arena.count();
                 let fb = self.free_positions();
                 let tokn = self.ids.len() as u32;
-                let id = self.arena.new_node(Tok(tokn, self.log.clone()));
+                let log = self.log.clone();
+                let arena = &mut self.arena;
+                let id = match catch_unwind(AssertUnwindSafe(|| arena.new_node(Tok(tokn, log)))) {
+                    Ok(id) => id,
+                    Err(_) => return Err(v(&["C07", "C05", "C06"], "new_node panicked".into())),
+                };
                 self.register_new(id, cb, &fb, retired, "new_node")?;
             }
             Op::AppendValue(p) => {
@@ -407,6 +412,10 @@ impl Sut {
                 let mut props: Vec<&'static str> = vec!["C05"];
                 if involves_removed {
                     props.push("C12");
+                }
+                if !imp {
+                    // a possible insert that does not happen is also a C03 failure (the node is not put where requested)
+                    props.push("C03");
                 }
                 match (r, checked) {
                     (Err(_), true) => return Err(v(&props, format!("{} panicked", op_str(op)))),
@@ -822,6 +831,23 @@ fn run_seq(ops: &[Op], heartbeat: &Arc<Mutex<(String, Instant)>>, full_checks: b
         if t.arena != s.arena || t.ids != s.ids {
             return Outcome { viol: Some(v(&["C13"], "replaying the same calls on a new arena gives a different arena or different ids".into())), steps: ops.len() };
         }
+        let roomy = catch_unwind(AssertUnwindSafe(|| {
+            let mut t = Sut::new();
+            t.arena = Arena::with_capacity(64);
+            t.arena.reserve(100);
+            let mut r2 = BTreeSet::new();
+            for op in ops {
+                if t.apply(op, &mut r2).is_err() {
+                    break;
+                }
+            }
+            t
+        }));
+        if let Ok(t) = roomy {
+            if t.arena != s.arena || t.ids != s.ids {
+                return Outcome { viol: Some(v(&["C13"], "the same calls on Arena::with_capacity(64) + reserve(100) give different ids or a different arena than on Arena::new()".into())), steps: ops.len() };
+            }
+        }
         let c = s.arena.clone();
         if c != s.arena {
             return Outcome { viol: Some(v(&["C13"], "a clone does not compare equal to its original".into())), steps: ops.len() };
@@ -889,6 +915,9 @@ fn scenarios() -> Vec<Vec<Op>> {
     out.push(parse_ops("new; new; new; remove 2; cycle 1 32770; new; new; remove 0; new; new"));
     out.push(parse_ops("new; cycle 0 32770; new; new; remove 0; new"));
     out.push(parse_ops("new; new; new; new; checked_append 0 1; checked_append 0 2; checked_append 1 3; cycle 2 32769; remove_subtree 0; new; new; new; new; new"));
+    // the last removal of an exhausted slot happens while another slot is waiting in the free list
+    out.push(parse_ops("new; new; cycle 1 32767; remove 0; remove 32768; new; new; new; remove 32769; new; new"));
+    out.push(parse_ops("new; new; new; cycle 2 32767; remove 0; remove 1; remove 32769; new; new; new; new; remove 32770; remove 32771; new; new"));
     // clear with pending free slots
     out.push(parse_ops("new; new; new; remove 1; clear; new; new; new; remove 0; new; new"));
     out
